@@ -98,6 +98,94 @@ theorem mono_list (h : String → Except Err Val) (g s : Env) (hext : EnvLe g s)
     exact Le.bind (mono_eval h g s hext e) fun _ => Le.bind (mono_list h g s hext rest) fun _ => Le.refl _
 end
 
+/-! the same for every outcome except the evaluator's own ValueError (an unknown name is one): `floatResult` and the errors of
+    Python operations are stable under every completion of the environment -/
+mutual
+theorem amono_eval (h : String → Except Err Val) (g s : Env) (hext : EnvLe g s) :
+    ∀ e : PExpr, Ag (evalH h g e) (evalH h s e)
+  | .const v => by rw [evalH, evalH]; exact Ag.refl _
+  | .name x => by
+    rw [evalH, evalH]
+    cases hg : g.lookup x with
+    | none => exact Or.inl rfl
+    | some o =>
+      cases o with
+      | none => exact Or.inl rfl
+      | some w => rw [hext x w hg]; exact Or.inr rfl
+  | .bin op a b => by
+    rw [evalH, evalH]
+    exact Ag.bind (amono_eval h g s hext a) fun _ => Ag.bind (amono_eval h g s hext b) fun _ => Ag.refl _
+  | .un op a => by
+    rw [evalH, evalH]
+    exact Ag.bind (amono_eval h g s hext a) fun _ => Ag.refl _
+  | .and a b => by
+    rw [evalH, evalH]
+    exact Ag.bind (amono_eval h g s hext a) fun _ => Ag.ite (amono_eval h g s hext b) (Ag.refl _)
+  | .or a b => by
+    rw [evalH, evalH]
+    exact Ag.bind (amono_eval h g s hext a) fun _ => Ag.ite (Ag.refl _) (amono_eval h g s hext b)
+  | .compare l rest => by
+    rw [evalH, evalH]
+    refine Ag.bind (amono_eval h g s hext l) fun v => ?_
+    cases rest with
+    | nil => exact Ag.refl _
+    | cons p ps => exact amono_chain h g s hext v (p :: ps)
+  | .ifexp c a b => by
+    rw [evalH, evalH]
+    exact Ag.bind (amono_eval h g s hext c) fun _ => Ag.ite (amono_eval h g s hext a) (amono_eval h g s hext b)
+  | .fstr parts => by
+    rw [evalH, evalH]
+    exact Ag.bind (amono_parts h g s hext parts) fun _ => Ag.refl _
+  | .call f [] => by
+    rw [evalH, evalH]; exact Ag.refl _
+  | .call f [a] => by
+    rw [evalH, evalH]
+    refine Ag.ite (Ag.bind (amono_eval h g s hext a) fun _ => Ag.refl _) ?_
+    refine Ag.ite (Ag.bind (amono_eval h g s hext a) fun _ => Ag.refl _) ?_
+    refine Ag.ite (Ag.bind (amono_eval h g s hext a) fun _ => Ag.refl _) ?_
+    exact Ag.ite (Ag.bind (amono_list h g s hext [a]) fun _ => Ag.refl _) (Ag.refl _)
+  | .call f (a :: b :: r) => by
+    rw [evalH.eq_12 _ _ _ _ (by simp) (by simp), evalH.eq_12 _ _ _ _ (by simp) (by simp)]
+    refine Ag.ite (Ag.refl _) ?_
+    refine Ag.ite (Ag.refl _) ?_
+    refine Ag.ite (Ag.refl _) ?_
+    exact Ag.ite (Ag.bind (amono_list h g s hext (a :: b :: r)) fun _ => Ag.refl _) (Ag.refl _)
+  | .seq t es => by
+    rw [evalH, evalH]
+    exact Ag.bind (amono_list h g s hext es) fun _ => Ag.refl _
+  | .forbidden k => by
+    rw [evalH, evalH]; exact Ag.refl _
+
+theorem amono_chain (h : String → Except Err Val) (g s : Env) (hext : EnvLe g s) (l : Val) :
+    ∀ rest : List (CmpOp × PExpr), Ag (evalChainH h g l rest) (evalChainH h s l rest)
+  | [] => by rw [evalChainH, evalChainH]; exact Ag.refl _
+  | (op, e) :: rest => by
+    rw [evalChainH, evalChainH]
+    refine Ag.bind (amono_eval h g s hext e) fun r => Ag.bind (Ag.refl _) fun ok => ?_
+    exact Ag.ite (amono_chain h g s hext r rest) (Ag.refl _)
+
+theorem amono_parts (h : String → Except Err Val) (g s : Env) (hext : EnvLe g s) :
+    ∀ ps : List (Option String × Option PExpr), Ag (evalPartsH h g ps) (evalPartsH h s ps)
+  | [] => by rw [evalPartsH, evalPartsH]; exact Ag.refl _
+  | (some t, _) :: rest => by
+    rw [evalPartsH, evalPartsH]
+    exact Ag.bind (amono_parts h g s hext rest) fun _ => Ag.refl _
+  | (none, some e) :: rest => by
+    rw [evalPartsH, evalPartsH]
+    refine Ag.bind (amono_eval h g s hext e) fun v => ?_
+    cases pyStr v with
+    | none => exact Ag.refl _
+    | some t => exact Ag.bind (amono_parts h g s hext rest) fun _ => Ag.refl _
+  | (none, none) :: _ => by rw [evalPartsH, evalPartsH]; exact Ag.refl _
+
+theorem amono_list (h : String → Except Err Val) (g s : Env) (hext : EnvLe g s) :
+    ∀ es : List PExpr, Ag (evalListH h g es) (evalListH h s es)
+  | [] => by rw [evalListH, evalListH]; exact Ag.refl _
+  | e :: rest => by
+    rw [evalListH, evalListH]
+    exact Ag.bind (amono_eval h g s hext e) fun _ => Ag.bind (amono_list h g s hext rest) fun _ => Ag.refl _
+end
+
 end EvalPart
 
 /-! ### (b) the constant environment -/
